@@ -627,7 +627,9 @@ class FnTrans:
 
     def icmp_expr(self, pred, t, a, b):
         if t.k == 'ptr':
-            if pred in ('eq', 'ne'): return '((u8)(%s %s %s))' % (a, ICMP_U[pred], b)
+            if pred in ('eq', 'ne'):
+                if a == '((u8*)0)' or b == '((u8*)0)': return '((u8)(%s %s %s))' % (a, ICMP_U[pred], b)
+                return '((u8)(%sIR_PTR_EQ(%s, %s)))' % ('' if pred == 'eq' else '!', a, b)
             a = '((u64)%s)' % a; b = '((u64)%s)' % b
             if pred in ICMP_U: return '((u8)(%s %s %s))' % (a, ICMP_U[pred], b)
             return '((u8)((int64_t)%s %s (int64_t)%s))' % (a, ICMP_S[pred], b)
@@ -925,7 +927,7 @@ class FnTrans:
                 # declare slot as separate local
                 self.slotdecl = getattr(self, 'slotdecl', [])
             else:
-                out.append('%s = (u8*)malloc(sizeof(%s) * (size_t)%s);' % (self.v(d), G.ct(ty), self.op(cnt)))
+                out.append('%s = IR_ALLOC(sizeof(%s) * (u64)%s);' % (self.v(d), G.ct(ty), self.op(cnt)))
             return
         if k == 'load':
             _, d, ty, p = I; out.append('%s = *(%s*)%s;' % (self.v(d), G.ct(ty), self.op(p))); return
@@ -1210,12 +1212,18 @@ class Gen(CGen):
             f = self.mod.funcs.get(name)
             if f is None: raise KeyError("unknown function " + name)
             if name in self.models:
-                protos.append(self.proto(f, 'M_' + cid(self.models[name][1])) + ';'); continue
+                mc = 'M_' + cid(self.models[name][1])
+                if self.resolve(f.ret).k in ('struct', 'array'):
+                    protos.append('typedef %s R_%s;' % (self.ct(f.ret), cid(self.models[name][1])))
+                protos.append(self.proto(f, mc) + ';'); continue
             if f.body is None:
                 # unmodelled external
                 head = self.proto(f, 'f_' + cid(name))
                 protos.append(head + ';')
-                fn_out.append(head + ' { IR_UNMODELLED("%s"); %s }' % (name, 'return;' if f.ret.k == 'void' else 'return %s;' % self.zero_value(f.ret)))
+                if name in getattr(self.mod, 'noop', ()):
+                    fn_out.append(head + ' { %s }' % ('return;' if f.ret.k == 'void' else 'return %s;' % self.zero_value(f.ret)))
+                else:
+                    fn_out.append(head + ' { IR_UNMODELLED("%s"); %s }' % (name, 'return;' if f.ret.k == 'void' else 'return %s;' % self.zero_value(f.ret)))
                 continue
             ft = FnTrans(self, f)
             try:
@@ -1250,7 +1258,10 @@ class Gen(CGen):
                 if name2 in self.models: protos.append(self.proto(f, 'M_' + cid(self.models[name2][1])) + ';'); continue
                 if f.body is None:
                     head = self.proto(f, 'f_' + cid(name2)); protos.append(head + ';')
-                    fn_out.append(head + ' { IR_UNMODELLED("%s"); %s }' % (name2, 'return;' if f.ret.k == 'void' else 'return %s;' % self.zero_value(f.ret)))
+                    if name2 in getattr(self.mod, 'noop', ()):
+                        fn_out.append(head + ' { %s }' % ('return;' if f.ret.k == 'void' else 'return %s;' % self.zero_value(f.ret)))
+                    else:
+                        fn_out.append(head + ' { IR_UNMODELLED("%s"); %s }' % (name2, 'return;' if f.ret.k == 'void' else 'return %s;' % self.zero_value(f.ret)))
                     continue
                 ft = FnTrans(self, f); head, body = ft.translate()
                 protos.append(head + ';'); fn_out.append(head + '\n' + '\n'.join(self.fix_slots(body)))
@@ -1325,6 +1336,35 @@ static inline void IR_MEMCPY(void* d, const void* s, u64 n) { for (u64 i = 0; i 
 static inline void IR_MEMMOVE(void* d, const void* s, u64 n) { if ((u64)d <= (u64)s) { for (u64 i = 0; i < n; i++) ((u8*)d)[i] = ((const u8*)s)[i]; } else { for (u64 i = n; i > 0; i--) ((u8*)d)[i-1] = ((const u8*)s)[i-1]; } }
 static inline void IR_MEMSET(void* d, int c, u64 n) { for (u64 i = 0; i < n; i++) ((u8*)d)[i] = (u8)c; }
 #endif
+/* pointer equality: written over (object, offset) so that the symbolic executor's simplifier can decide
+   `first != last` loops of libstdc++ iterators instead of leaving them to the solver */
+#ifdef __CPROVER__
+#define IR_PTR_EQ(a,b) (__CPROVER_POINTER_OBJECT(a) == __CPROVER_POINTER_OBJECT(b) && __CPROVER_POINTER_OFFSET(a) == __CPROVER_POINTER_OFFSET(b))
+#else
+#define IR_PTR_EQ(a,b) ((a) == (b))
+#endif
+/* allocation: CBMC models malloc'd objects as byte arrays and does not fold a pointer that was stored into
+   one and read back, so every `first != last` / `node != 0` loop of the C++ containers would run to its unwind
+   bound.  Reads from u64-typed static arrays do fold; the models therefore allocate from word-typed pools
+   (three size classes).  Blocks are never reused: free() is a no-op here, so use-after-free is not detected
+   by units built on this allocator (stated where it matters). */
+#ifdef __CPROVER__
+#ifndef IR_POOL_S
+#define IR_POOL_S 256
+#endif
+#ifndef IR_POOL_M
+#define IR_POOL_M 192
+#endif
+#ifndef IR_POOL_B
+#define IR_POOL_B 48
+#endif
+IR_POOL_DECLS
+#define IR_FREE(p) ((void)(p))
+#else
+int ir_dynamic = 0;
+static u8* IR_ALLOC(u64 n) { u8* p = (u8*)malloc(n ? n : 1); if (!p) abort(); return p; }
+#define IR_FREE(p) free(p)
+#endif
 #define IR_SDIV(a,b) ((a)/(b))
 #define IR_SREM(a,b) ((a)%(b))
 #define IR_CATCHALL_ID 1
@@ -1344,14 +1384,33 @@ static inline int __ir_exc_matches(int target) { return __ir_ti_is_a(__ir_exc_ti
 static inline void __ir_exc_resume(u8* obj, u32 sel) { __ir_exc_pending = 1; __ir_exc_obj = obj; }
 '''
 
+def pool_decls(ns=1200, nm=320, nb=64):
+    """Every allocation gets its own word-typed static array (own SSA symbol): a symbolic branch that writes one
+    object then only merges that object, and reads of constant cells keep folding."""
+    out = []
+    for cls, n, words in (('s', ns, 8), ('m', nm, 24), ('b', nb, 176)):
+        out.append(' '.join('static u64 ir_%s%d[%d];' % (cls, i, words) for i in range(n)))
+        out.append('static unsigned ir_n%s = 0;' % cls)
+        out.append('static u8* ir_alloc_%s(void) { switch (ir_n%s++) { %s default: IR_ASSERT(0, "BOUND: allocation pool (%s) exhausted"); IR_ASSUME(0); return (u8*)0; } }' % (
+            cls, cls, ' '.join('case %d: return (u8*)ir_%s%d;' % (i, cls, i) for i in range(n)), cls))
+    # allocations made while symbolic control flow is active (harness sets ir_dynamic = 1 before the unit under test runs):
+    # the counter may then be symbolic, so these come from one two-dimensional arena (symbolic row index) instead of
+    # being selected by a switch over hundreds of separate objects
+    out.append('static u64 ir_dyn[160][8]; static unsigned ir_nd = 0; int ir_dynamic = 0;')
+    out.append('static u8* IR_ALLOC(u64 n) { if (ir_dynamic && n <= 64) { IR_ASSERT(ir_nd < 160, "BOUND: dynamic arena exhausted"); IR_ASSUME(ir_nd < 160); return (u8*)ir_dyn[ir_nd++]; } '
+               'if (n <= 64) return ir_alloc_s(); if (n <= 192) return ir_alloc_m(); IR_ASSERT(n <= 1408, "BOUND: allocation larger than the largest pool block"); IR_ASSUME(n <= 1408); return ir_alloc_b(); }')
+    return '\n'.join(out)
+
+
 def main():
     ap = argparse.ArgumentParser()
-    ap.add_argument('ll'); ap.add_argument('--root', action='append', default=[]); ap.add_argument('--models', default=None)
+    ap.add_argument('ll'); ap.add_argument('--root', action='append', default=[]); ap.add_argument('--models', action='append', default=[])
+    ap.add_argument('--noop', action='append', default=[])
     ap.add_argument('-o', default='-'); ap.add_argument('--stub', action='append', default=[])
     a = ap.parse_args()
     models = {}
-    if a.models:
-        for ln in open(a.models):
+    for mf in a.models:
+        for ln in open(mf):
             ln = ln.split('#')[0].strip()
             if not ln: continue
             parts = ln.split()
@@ -1365,9 +1424,15 @@ def main():
         rx = re.compile(pat)
         for n, f in mod.funcs.items():
             if rx.search(n): f.body = None
+    noop = set()
+    for pat in a.noop:
+        rx = re.compile(pat)
+        for n, f in mod.funcs.items():
+            if rx.search(n) and n not in models: f.body = None; noop.add(n)
+    mod.noop = noop
     G = Gen(mod, models, a)
     types, g_decl, protos, ti, g_out, fn_out = G.generate(a.root)
-    out = [PRELUDE]
+    out = [PRELUDE.replace('IR_POOL_DECLS', pool_decls())]
     out += types
     out.append('/* ---- globals (declarations) */'); out += g_decl
     out.append('/* ---- prototypes */'); out += list(collections.OrderedDict.fromkeys(protos))
